@@ -1,6 +1,47 @@
-/-! Driver mode `pw` (stub, filled in by its check). -/
+import Sessions.Password.All
+import Std.Data.HashSet
+/-! Driver mode `pw`: `driver pw <common.txt> <dict.txt> <harness output>` prints, per query line of the
+harness output, the result code of the Lean model `Pw.classify` (the lower-cased forms are the ones Go's
+`strings.ToLower` produced, as logged by the harness), or `inconsistent` when the logged ToLower table is
+not a function. The word lists are the ones an independent reader extracted from the Go source constants. -/
 namespace Drv
-def runPw (_args : List String) : IO UInt32 := do
-  IO.eprintln "mode not implemented"
-  return 2
+open Pw
+
+def hexv (c : Char) : Nat :=
+  if '0' ≤ c && c ≤ '9' then c.toNat - 48 else if 'a' ≤ c && c ≤ 'f' then c.toNat - 87 else 0
+
+def unhex : List Char → List UInt8
+  | a :: b :: r => UInt8.ofNat (hexv a * 16 + hexv b) :: unhex r
+  | _ => []
+
+def field (s : String) : Bytes := if s == "-" then [] else unhex s.toList
+
+def pairs : List String → List (Bytes × Bytes)
+  | a :: b :: r => (field a, field b) :: pairs r
+  | _ => []
+
+def loadList (path : String) : IO (Std.HashSet Bytes) := do
+  let ls ← IO.FS.lines path
+  return ls.foldl (fun s l => s.insert l.toUTF8.toList) {}
+
+def runPw (args : List String) : IO UInt32 := do
+  match args with
+  | [commonPath, dictPath, queries] =>
+    let common ← loadList commonPath
+    let dict ← loadList dictPath
+    let out ← IO.getStdout
+    let ls ← IO.FS.lines queries
+    for l in ls do
+      let toks := (l.splitOn " ").filter (· ≠ "")
+      match toks with
+      | "lists" :: _ => pure ()
+      | _code :: pw :: pwl :: rest =>
+        let p := field pw
+        let pl := field pwl
+        let ns := pairs rest
+        if !tableConsistent ((p, pl) :: ns) then out.putStrLn "inconsistent"
+        else out.putStrLn (toString (classify common dict pl p ns))
+      | _ => out.putStrLn "bad"
+    return 0
+  | _ => IO.eprintln "usage: driver pw <common.txt> <dict.txt> <queries>"; return 2
 end Drv
